@@ -255,7 +255,13 @@ class Sky130Walker(h.HierarchyWalker):
             modparams = Sky130GenResParams(w=w, l=l)
 
         elif mod.paramtype == Sky130PrecResParams:
-            l = default_prec_res_L[mod.name]
+            # Precision resistors have a fixed width. Their length is set in microns.
+            if params.l is None:
+                l = default_prec_res_L[mod.name]
+            elif isinstance(params.l, h.Prefixed):
+                l = params.l * MEGA
+            else:
+                l = h.Literal(f"({params.l.text} * 1e6)")
 
             modparams = Sky130PrecResParams(l=l)
 
@@ -312,7 +318,11 @@ class Sky130Walker(h.HierarchyWalker):
 
         mod = self.diode_module(params)
 
-        if params.w is not None and params.w is not None:
+        if (params.w is None) != (params.l is None):
+            msg = f"Invalid Diode size for model {params.model}: area and perimeter require both `w` and `l`, or neither for the default size (w={params.w}, l={params.l})"
+            raise RuntimeError(msg)
+
+        if params.w is not None and params.l is not None:
             # This scaling is a quirk of SKY130
             a = params.w * params.l * 1 * TERA
             pj = 2 * (params.w + params.l) * MEGA
